@@ -3,7 +3,7 @@ import argparse
 import sys
 
 from symx.runner import run_check
-from checks.matchfam import MatchAPI, Kernel, KernelAffine, SymbolicAlpha
+from checks.matchfam import MatchAPI, MatchLong, Kernel, KernelAffine, SymbolicAlpha
 
 META = {
     "explanation": "Same symbolic runs of the real matching code as C01, with the claims of C03 evaluated on every path: "
@@ -26,5 +26,5 @@ if __name__ == "__main__":
     ap = argparse.ArgumentParser()
     ap.add_argument("--tier", default="quick")
     a = ap.parse_args()
-    sys.exit(run_check("C03", "matching profile", [MatchAPI("C03"), Kernel("C03"), KernelAffine("C03"),
+    sys.exit(run_check("C03", "matching profile", [MatchAPI("C03"), MatchLong("C03"), Kernel("C03"), KernelAffine("C03"),
                                                    SymbolicAlpha("C03")], a.tier, META))
